@@ -62,7 +62,7 @@ func buildWorker(tag string, race bool, instrument ...bool) string {
 		args = append(args, "-race")
 	}
 	if len(instrument) > 0 && instrument[0] {
-		modfile, cleanup := instrumentedCopy(name)
+		modfile, cleanup := instrumentedCopy(name, len(instrument) > 1 && instrument[1])
 		defer cleanup()
 		args = append(args, "-modfile="+modfile)
 	}
@@ -91,7 +91,7 @@ func mustRun(dir string, name string, args ...string) string {
 
 // instrumentedCopy copies the library sources of the tree under test to .build, inserts the statement-level yield
 // points and writes a go.mod for the harness that points at the copy. It returns the modfile and a cleanup function.
-func instrumentedCopy(name string) (string, func()) {
+func instrumentedCopy(name string, wide bool) (string, func()) {
 	base := filepath.Join(verifDir, ".build", fmt.Sprintf("instr-%s-%d", name, os.Getpid()))
 	copyDir := filepath.Join(base, "repo")
 	cleanup := func() { _ = os.RemoveAll(base) }
@@ -104,6 +104,11 @@ func instrumentedCopy(name string) (string, func()) {
 	}
 	instrBin := filepath.Join(base, "instr")
 	mustRun(simDir, goTool(), "build", "-o", instrBin, "./cmd/instr")
+	if wide {
+		// thorough tier: the crossover and mutation files get statement-level yield points as well
+		os.Setenv("INSTR_WIDE", "1")
+		defer os.Unsetenv("INSTR_WIDE")
+	}
 	out := mustRun(simDir, instrBin, filepath.Join(copyDir, "neat", "genetics"))
 	if !strings.Contains(out, "yield points inserted") {
 		die2("instr produced no report: %s", out)
@@ -336,7 +341,7 @@ func check(prop, tier string) int {
 	}
 	seed := seedFromEnv()
 	known := loadKnown()
-	bin := buildWorker(prop+"-"+tier, scn.Race, scn.Instrument)
+	bin := buildWorker(prop+"-"+tier, scn.Race, scn.Instrument, tier == "thorough")
 	defer os.Remove(bin)
 	runs := scn.QuickRuns
 	if tier == "thorough" {
@@ -545,7 +550,7 @@ func finishCrashOrRace(bin string, scn *sim.Scenario, rf *ReplayFile, known []si
 	// the tape of run idx is a pure function of (seed, property, idx): record it with a build without the race detector
 	tapeBin := bin
 	if scn.Race {
-		tapeBin = buildWorker(rf.Property+"-tape", false, scn.Instrument)
+		tapeBin = buildWorker(rf.Property+"-tape", false, scn.Instrument, rf.Tier == "thorough")
 		defer os.Remove(tapeBin)
 	}
 	// record mode replays: ask the worker for the tape through a traced replay of the recorded run
@@ -638,7 +643,7 @@ func replay(path string) int {
 	if scn == nil {
 		die2("no scenario for %s", rf.Property)
 	}
-	bin := buildWorker(rf.Property+"-replay", scn.Race, scn.Instrument)
+	bin := buildWorker(rf.Property+"-replay", scn.Race, scn.Instrument, rf.Tier == "thorough")
 	defer os.Remove(bin)
 	known := loadKnown()
 	job := &sim.Job{Mode: "replay", Prop: rf.Property, Tier: rf.Tier, Seed: rf.Seed, Tape: rf.Tape, Known: known, Trace: os.Getenv("VERIF_TRACE") != ""}
